@@ -72,7 +72,6 @@ Definition class25_tok (d : option dev25) : bytes :=
   match d with
   | None => dash
   | Some NestedManagers => B "nested_managers"
-  | Some SubtreeSilent => B "subtree_silent"
   end.
 
 Definition step0 : wstep := {| w_res := RBool true; w_signals := []; w_tree := root0 |}.
